@@ -6,6 +6,7 @@ import (
 	"bytes"
 	"testing"
 
+	"github.com/cloudflare/circl/ecc/bls12381"
 	core "github.com/cloudflare/circl/zz_verif/c10core"
 )
 
@@ -28,6 +29,41 @@ func init() {
 	}
 	for _, n := range []string{"tss/rsa.KeyShare.UnmarshalBinary", "tss/rsa.SignShare.UnmarshalBinary"} {
 		hostile(n, ones, share(0xffff, 1), share(0xfff8, 1), share(0xfff7, 1), share(0xfff5, 0))
+	}
+}
+
+// Well-formed but adversarial group elements for sign/bls (identity in both
+// encodings, the generator, the negated generator, uncompressed forms), each
+// followed by one spare byte so that the sweep's prefixes contain the exact
+// encoding: a mutated key or signature almost never decodes, these always do
+// and reach the pairing code.
+func init() {
+	var id1, neg1 bls12381.G1
+	id1.SetIdentity()
+	neg1 = *bls12381.G1Generator()
+	neg1.Neg()
+	var id2, neg2 bls12381.G2
+	id2.SetIdentity()
+	neg2 = *bls12381.G2Generator()
+	neg2.Neg()
+	spare := func(bs ...[]byte) (out [][]byte) {
+		for _, b := range bs {
+			out = append(out, append(append([]byte{}, b...), 0))
+		}
+		return
+	}
+	g1 := spare(id1.BytesCompressed(), id1.Bytes(), bls12381.G1Generator().BytesCompressed(), bls12381.G1Generator().Bytes(), neg1.BytesCompressed(), neg1.Bytes())
+	g2 := spare(id2.BytesCompressed(), id2.Bytes(), bls12381.G2Generator().BytesCompressed(), bls12381.G2Generator().Bytes(), neg2.BytesCompressed(), neg2.Bytes())
+	for _, v := range []struct {
+		name     string
+		key, sig [][]byte
+	}{{"bls/KeyG1SigG2", g1, g2}, {"bls/KeyG2SigG1", g2, g1}} {
+		for _, e := range []string{".PublicKey.UnmarshalBinary", ".Verify(unmarshalled-pk)", ".VerifyAggregate(unmarshalled-pk)"} {
+			hostile(v.name+e, v.key...)
+		}
+		for _, e := range []string{".Verify(sig)", ".Aggregate(sig-element)", ".Aggregate(single)", ".VerifyAggregate(aggsig)"} {
+			hostile(v.name+e, v.sig...)
+		}
 	}
 }
 
